@@ -174,7 +174,7 @@ def sep_chars_of_render(t):
 
 
 def wf_bundle(rng, sep):
-    return [wf_table(rng, sep) for _ in range(rng.choice([1, 1, 2, 3, 4]))]
+    return [wf_table(rng, sep) for _ in range(rng.choice([0, 1, 1, 1, 2, 2, 3, 4]))]
 
 
 def table_val(t):
